@@ -408,6 +408,37 @@ func detect(path string, offset int64, opts Params) (Version, int64, error) {
 	return v, dataSize, nil
 }
 
+// LastOffset returns the offset of the last item of an index file, reading only that item;
+// ok is false if the index has no items
+func LastOffset(path string, offset int64, opts Params) (last int64, ok bool, err error) {
+	version, dataSize, err := detect(path, offset, opts)
+	if err != nil {
+		return 0, false, fmt.Errorf("index last: %w", err)
+	}
+	itemsSize := dataSize
+	if version == V2 {
+		itemsSize -= HeaderSize
+	}
+	switch {
+	case itemsSize%opts.Size() > 0:
+		return 0, false, errIndexSize
+	case itemsSize == 0:
+		return 0, false, nil
+	}
+
+	f, err := os.Open(path)
+	if err != nil {
+		return 0, false, fmt.Errorf("index last open: %w", err)
+	}
+	defer func() { _ = f.Close() }()
+
+	var b [8]byte
+	if _, err := f.ReadAt(b[:], dataSize-opts.Size()); err != nil {
+		return 0, false, fmt.Errorf("index last read: %w", err)
+	}
+	return int64(binary.BigEndian.Uint64(b[:])), true, nil
+}
+
 func GetVersion(path string, offset int64, opts Params) (Version, error) {
 	version, _, err := detect(path, offset, opts)
 	return version, err
